@@ -9,10 +9,11 @@ import subprocess
 from . import common as c
 
 SUPPORT = ["Ast/Linked.v", "Ast/Tree.v", "Ast/Node.v", "Ast/Refute.v", "Ast/LinkedProofs.v", "Ast/IndexProofs.v",
-           "Ast/NodeRefine.v", "Ast/ArrayRefine.v", "Ast/RootRefine.v"]
+           "Ast/NodeRefine.v", "Ast/ArrayRefine.v", "Ast/RootRefine.v", "Ast/ObjectRefine.v", "Ast/ObjectOps.v",
+           "Ast/ObjectSet.v", "Ast/RootRefine2.v"]
 
 CLAIM = {
-    "gens": [],
+    "gens": ["AstConsts"],
     "category": "proof",
     "text": "Coq: an executable model of ast.Node (raw/lazy/loaded representations, chunked child storage of 16-cell chunks, "
             "soft-deleted cells with logical indexing, the key index with its linear fallback) and a plain ordered tree with "
@@ -262,7 +263,7 @@ def describe(runner, fields, ops, kind):
 def run(ctx):
     ctx.level = "proof"
     ctx.trusted = c.TRUSTED_COMMON + [
-        c.TRUSTED_EXTRACT,
+        c.TRUSTED_EXTRACT, c.TRUSTED_TX,
         "the read-only hook /repo/ast/verif_hooks.go (representation dump, abstraction, canonical JSON rendering)",
         "Go's sort.Stable (modelled as a stable insertion sort through Less/Swap; for n <= 20 that is its exact swap sequence)",
     ]
